@@ -500,6 +500,23 @@ func run(sc *scenario, out *bufio.Writer) {
 		}
 	}
 	kafka.VerifStart()
+	var tmu sync.Mutex
+	born := map[string]time.Time{}
+	kafka.VerifSetSink(func(e kafka.VerifEvent) {
+		switch e.Kind {
+		case "PW.NewBatch":
+			tmu.Lock()
+			born[e.Args[1]] = time.Now()
+			tmu.Unlock()
+		case "B.TimerFire":
+			tmu.Lock()
+			if t0, ok := born[e.Args[1]]; ok {
+				timerObs.add(time.Since(t0), sc.timeout)
+			}
+			tmu.Unlock()
+		}
+	})
+	defer kafka.VerifSetSink(nil)
 	// build the messages and name the calls by the recorder id of &msgs[0]
 	type liveCall struct {
 		spec callSpec
@@ -688,6 +705,31 @@ func run(sc *scenario, out *bufio.Writer) {
 	out.WriteString("\n")
 }
 
+// timerStats: observation only (timing is runtime): elapsed time between PW.NewBatch and B.TimerFire vs BatchTimeout.
+type timerStats struct {
+	mu                sync.Mutex
+	n, early          int
+	minSlack, maxLate time.Duration
+}
+
+var timerObs = &timerStats{minSlack: time.Hour}
+
+func (t *timerStats) add(elapsed, timeout time.Duration) {
+	t.mu.Lock()
+	defer t.mu.Unlock()
+	t.n++
+	d := elapsed - timeout
+	if d < t.minSlack {
+		t.minSlack = d
+	}
+	if d > t.maxLate {
+		t.maxLate = d
+	}
+	if d < -time.Millisecond {
+		t.early++
+	}
+}
+
 func waitTimeout(wg *sync.WaitGroup, d time.Duration) bool {
 	ch := make(chan struct{})
 	go func() { wg.Wait(); close(ch) }()
@@ -797,4 +839,6 @@ func main() {
 	for i := 0; i < n; i++ {
 		run(b.random(i, thorough), out)
 	}
+	fmt.Fprintf(out, "obs timer fires=%d earlier_than_timeout_minus_1ms=%d min(elapsed-timeout)=%s max(elapsed-timeout)=%s\n",
+		timerObs.n, timerObs.early, timerObs.minSlack, timerObs.maxLate)
 }
